@@ -58,7 +58,7 @@ def run_unit(ctx, proofs_ok):
     ]
     with C.Threads():
         coll = C.Collector(ctx, "C02", "graph")
-        scale = C.budget(ctx, 5, 20)
+        scale = C.budget(ctx, 5, 60)
         res = C.graph_streams(ctx, rng, torch, scale, coll, "c02")
         unit = _evaluate(ctx, res, coll, "")
         if (coll.n_disagree or not proofs_ok or any("C02_graph" in b for b in ctx.broken)) and not coll.best:
